@@ -21,7 +21,7 @@ META = dict(
     level_note="Trusted base: numpy einsum, mpmath interpolation oracle, PyYAML for the info values, eko.runner.commons.couplings as the definition of 'the coupling used by the evolution' (cross-checked by an own ODE for LO/NLO, POLE, matching ratio 1), eko's archive reader for the (few) real-solve cases. xif=1 throughout. Printed precision: 6 significant decimals for x and Q nodes (%.6e), 8 for data (%.8e).",
     rule="case = (kind, scheme, order, method, n nf-blocks, members, target-grid form, install, index); non-trivial = evolve case with >= 2 evolution points not in ascending order or >= 2 nf blocks, dense random operators and a PDF with >= 3 flavours; round-trip case with >= 2 blocks of random data",
     min_nontrivial=25,
-    required_hits=["data_nodes", "info_ranges", "info_alphas_runner", "info_alphas_ode", "msbar_alphas", "targetgrid_list", "targetgrid_xgrid", "roundtrip_blocks", "generate_pdf", "install"],
+    required_hits=["data_nodes", "info_ranges", "info_alphas_runner", "info_alphas_ode", "msbar_alphas", "targetgrid_list", "targetgrid_xgrid", "roundtrip_blocks", "generate_pdf", "install", "overlapping_blocks_refused"],
     max_inconclusive_frac=0.1,
 )
 
@@ -78,6 +78,12 @@ def _evolve_case(seed, i):
         masses = (1.51, 4.92, 172.5)
         th_raw = wl.raw_theory(order=order, alphas=alphas, masses=masses, scheme="POLE", ratios=(1.0, 1.0, 1.0))
         scheme = "POLE"
+    bad_scales = (i % 12 == 10) and not real_solve
+    if bad_scales:
+        # last scale of a lower-nf block above the first scale of the next block
+        nfa = int(rng.integers(3, 6))
+        mugrid = [(5.0, nfa), (float(rng.uniform(12.0, 20.0)), nfa), (10.0, nfa + 1), (100.0, nfa + 1)]
+        nblocks = 2
     perm = rng.permutation(len(mugrid))
     mugrid = [mugrid[k] for k in perm]
     ascending = all(mugrid[k][0] <= mugrid[k + 1][0] for k in range(len(mugrid) - 1))
@@ -86,7 +92,7 @@ def _evolve_case(seed, i):
     xg = synth_f.make_xgrid(rng, nx, True)
     mu0 = 1.65 if real_solve else float(rng.uniform(1.0, 3.0))
     op_raw = wl.raw_operator(init=(mu0, 4), mugrid=mugrid, xgrid=xg.tolist(), degree=deg, method=method, iterations=1)
-    evolgrid = [(m * m, nf) for m, nf in mugrid]
+    evolgrid = [(m**2, nf) for m, nf in mugrid]  # as OperatorCard.evolgrid does
     nmem = int(rng.integers(1, 4))
     pdfs = []
     for _ in range(nmem):
@@ -106,7 +112,7 @@ def _evolve_case(seed, i):
     key = ("evolve", scheme, order[0], method, nblocks, nmem, tform, install, i)
     out["key"] = key
     out["nontrivial"] = (len(mugrid) >= 2 and (not ascending or nblocks >= 2)) and all(14 - len(p.missing) >= 3 for p in pdfs)
-    wit = dict(kind="evolve", index=i, scheme=scheme, order=list(order), method=method, masses=masses, refs=[None if r != r else r for r in refs], ratios=ratios,
+    wit = dict(kind="evolve", index=i, bad_scales=bad_scales, scheme=scheme, order=list(order), method=method, masses=masses, refs=[None if r != r else r for r in refs], ratios=ratios,
                alphas=alphas, mugrid=mugrid, xgrid=xg.tolist(), degree=deg, targetgrid=None if tg is None else tg.tolist(), tform=tform,
                members=nmem, install=install, pathform=pathform, real_solve=real_solve, name=name)
 
@@ -151,11 +157,19 @@ def _evolve_case(seed, i):
             except Exception as e:
                 import traceback
 
+                if bad_scales and isinstance(e, ValueError) and "bigger" in str(e):
+                    out["hits"]["overlapping_blocks_refused"] = 1
+                    out["ok"] = 1
+                    out["sample"] = dict(kind="evolve", bad_scales=True, mugrid=mugrid, refused=str(e)[:80])
+                    return out
                 tb = traceback.format_exc()
                 site = "other"
                 if tform != "none" and ("raw" in str(e) or "not iterable" in str(e) or "XGrid" in str(e)):
                     site = f"targetgrid-{tform}"
                 out["viol"].append((f"C45/evolve/raises/{site}", f"evolve_pdfs raised {type(e).__name__}: {e}", dict(wit, tb=tb[-700:])))
+                return out
+            if bad_scales:
+                out["viol"].append(("C45/evolve/overlapping-blocks-accepted", f"evolution grid {mugrid} with overlapping nf blocks was exported instead of refused (LHAPDF needs ascending sub-grids)", wit))
                 return out
             if real_solve:
                 tens = {}
@@ -192,7 +206,7 @@ def _evolve_case(seed, i):
             by_nf.setdefault(nf, []).append(mu)
         block_nfs = sorted(by_nf)
         block_qs = [sorted(by_nf[nf]) for nf in block_nfs]
-        mu20 = mu0 * mu0
+        mu20 = mu0**2
         all_x, all_q = [], []
         for m in range(nmem):
             try:
@@ -227,7 +241,7 @@ def _evolve_case(seed, i):
                     nbad += 1
                     continue
                 for iq, q in enumerate(qs):
-                    T = tens[(q * q, nf)][0]
+                    T = tens[(q**2, nf)][0]
                     res = np.einsum("ajbk,bk->aj", T, F)
                     sc = np.einsum("ajbk,bk->aj", np.abs(T), np.abs(F))
                     if Rx is not None:
@@ -477,8 +491,18 @@ def _one(arg):
     return _evolve_case(seed, i) if kind == "evolve" else _roundtrip_case(seed, i)
 
 
+def _safe(a):
+    try:
+        return _one(a)
+    except Exception as e:  # a harness failure is never a verdict
+        import traceback
+
+        return dict(key=("harness-error", a[1], a[2]), nontrivial=False, hits={}, viol=[], ok=0,
+                    inc=[f"harness error {type(e).__name__}: {e} {traceback.format_exc()[-300:]}"])
+
+
 def _chunk(args):
-    return [_one(a) for a in args]
+    return [_safe(a) for a in args]
 
 
 def _merge(ck, rec):
